@@ -1,5 +1,6 @@
 #!/bin/bash
 # run every thorough tier against a snapshot of /repo; results under ./thorough-results/
+[ -n "$VP_RUN_REPO" ] || { echo "VP_RUN_REPO is not set: start with vp run --with-repo"; exit 2; }
 export VERIF_REPO=$VP_RUN_REPO
 export VERIF_EVIDENCE_DIR=$PWD/thorough-results/evidence VERIF_FOUND_DIR=$PWD/thorough-results/found
 mkdir -p thorough-results
